@@ -501,5 +501,9 @@ Viable(s) == /\ s.dead = "" /\ ~s.helpAt.set /\ ~s.verAt.set /\ ~s.outside /\ ~s
                    LET it == s.frames[k].lvl.named[j]  occ == s.frames[k].acc[it.id] IN
                    /\ SingleUse(it) => Len(occ) <= 1
                    /\ it.kind = "arg" => \A i \in DOMAIN occ : ~BadValue(it, occ[i])
+\* the complete name of an option an enclosing level declares, typed to the right of a subcommand name, is that
+\* level's option (outside the quantifier like every such line), not a partial item of the active level
+ForeignLong(s, cs) == \E k \in 1..(Len(s.frames) - 1) : \E j \in DOMAIN s.frames[k].lvl.named :
+                         \E i \in DOMAIN s.frames[k].lvl.named[j].lchars : s.frames[k].lvl.named[j].lchars[i] = cs
 CompletionSandwich == \A p \in Partials(def) : MustOffer(st, p) \subseteq MayOffer(st, p)
 =============================================================================
